@@ -7,6 +7,7 @@ cd "$(dirname "$0")"
 ROOT="$(pwd)"
 export CARGO_NET_OFFLINE=true
 export VERIF_ROOT="$ROOT"
+mkdir -p "$ROOT/target" "$ROOT/evidence"
 (
   flock 9
   ./setup.sh >/dev/null 2>"$ROOT/target/setup.err" || { cat "$ROOT/target/setup.err"; tail -5 "$ROOT/target/build-harness.log" "$ROOT/target/build-cli.log" 2>/dev/null; exit 2; }
